@@ -276,6 +276,38 @@ INTERNAL_PANIC = re.compile(r"called `(?:Option|Result)::unwrap\(\)`|called `Opt
                             r"already (?:mutably )?borrowed|assertion (?:`?left|failed)|capacity overflow|explicit panic")
 
 
+def part_h(chk, thorough):
+    """Deeply nested argument expressions and types under the REAL compiler: the statement names stack exhaustion.  rustc itself takes
+    `((((..1000..))))` and `!!!!..3000..true`; each program is built by its own rustc process (a stack overflow kills the process, so
+    the verdict is read off the process: a signal, or `SIGSEGV` / `stack overflow` in its output, is an internal failure)."""
+    from compile_engine import Case, CompileEngine
+    deep = "(" * 1000 + "1" + ")" * 1000
+    bangs = "!" * 3000 + "true"
+    refs = "&" * 2000 + "1"
+    brackets = "[" * 600 + "1" + "]" * 600
+    progs = [("Display", '#[display("{}", %s)] pub struct S(pub i32);' % deep), ("Display", '#[display("{}", %s)] pub struct S(pub i32);' % bangs), ("Debug", '#[debug("{} {}", _0, %s)] pub struct S(pub i32);' % deep),
+             ("Display", 'pub enum S { #[display("{x} {}", %s)] A { x: u8 }, #[display("b")] B }' % refs), ("LowerHex", '#[lower_hex("{:?}", %s)] pub struct S;' % brackets),
+             ("Debug", 'pub struct S(#[debug("{}", %s)] pub i32);' % bangs)]
+    eng = CompileEngine("C18H", mode="check", per_bin=1)
+    eng._write_crate()
+    for i, (d, item) in enumerate(progs):
+        eng._write_bin(i, [Case("h%d" % i, "#[derive(derive_more::%s)] %s" % (d, item), has_run=False)])
+        p = eng._cargo([eng._bin_name(i)])
+        chk.count(states=1, transitions=1)
+        text = (p.stdout or "") + (p.stderr or "")
+        crashed = p.returncode < 0 or re.search(r"SIGSEGV|SIGABRT|SIGBUS|stack overflow|signal: \d+", text)
+        short = "#[derive(%s)] %s" % (d, item if len(item) < 160 else item[:70] + " ..(%d chars).. " % len(item) + item[-40:])
+        if crashed:
+            chk.outcome("deep-nesting-compiler-crash")
+            m = re.search(r"[^\n]*(SIGSEGV|SIGABRT|stack overflow|signal: \d+)[^\n]*", text)
+            chk.violation("internal failure: the compiler process died on a deeply nested argument (%s)" % d, short, (m.group(0) if m else "exit %d" % p.returncode)[:300])
+        elif p.returncode == 0:
+            chk.outcome("deep-nesting-compiles")
+        else:
+            chk.outcome("deep-nesting-diagnosed")
+    chk.part("h_deep_nesting", programs=len(progs), shapes=["1000 nested parentheses", "3000 prefix `!`", "2000 prefix `&`", "600 nested brackets"], oracle="one rustc process per program: it must end by itself (ok or diagnostics), not by a signal")
+
+
 def part_g(chk, thorough):
     """Rejected inputs under the REAL compiler.  In-process the expanders run on proc_macro2's fallback implementation, where e.g.
     `Span::join` always succeeds; under rustc (stable) it returns None.  Every input the expanders reject in-process - C17's
@@ -347,6 +379,7 @@ def run(chk, tier):
     part_e(chk)
     part_f(chk, thorough)
     part_g(chk, thorough)
+    part_h(chk, thorough)
     sweep(chk, "parser", ["--len", "5" if thorough else "4"], "b_parser_direct")
     sweep(chk, "lit", ["--len", "4" if thorough else "3"], "b_literals_in_attributes")
     if thorough:
